@@ -12,7 +12,7 @@ From Coq Require Import List Bool String.
 From UV.Base Require Import Cop Res.
 From UV.Gen Require Import Tables.
 From UV.Py Require Import PyStr.
-From UV.Schemes Require Import Common Generic LegacyOpenssl Semver SemverProofs Gem GemProofs Rpm RpmProofs Debian DebianProofs DebianHash Arch ArchProofs Openssl Pypi.
+From UV.Schemes Require Import Common Generic LegacyOpenssl Semver SemverProofs Gem GemProofs Rpm RpmProofs Debian DebianProofs DebianHash Arch ArchProofs Openssl Pypi Gentoo GentooProofs GentooHash.
 Import ListNotations.
 
 Lemma all_vclasses_complete c : In c all_vclasses.
@@ -79,6 +79,11 @@ Proof. exact ossl_eq_hash. Qed.
 Theorem C12_pypi_equal_versions_hash_alike : forall a b, o_eq (pypi_ops a b) = true -> pypi_hasheq a b = true.
 Proof. exact pypi_eq_hash. Qed.
 
+(* ebuild and alpine: versions that compare equal (1.0_p and 1.0_p0, 1.010 and 1.01, 01 and 1) have the same canonical key *)
+Theorem C12_gentoo_alpine_equal_versions_hash_alike :
+  forall a b, gok a = true -> gok b = true -> gentoo_cmp a b = Eq -> gentoo_hasheq a b = true.
+Proof. exact gentoo_eq_hash. Qed.
+
 Print Assumptions C12_every_version_class_is_hashable_and_frozen.
 Print Assumptions C12_containers_hash_what_they_compare.
 Print Assumptions C12_generic_equal_versions_hash_alike.
@@ -90,3 +95,4 @@ Print Assumptions C12_deb_equal_versions_hash_alike.
 Print Assumptions C12_alpm_equal_versions_hash_alike.
 Print Assumptions C12_openssl_equal_versions_hash_alike.
 Print Assumptions C12_pypi_equal_versions_hash_alike.
+Print Assumptions C12_gentoo_alpine_equal_versions_hash_alike.
